@@ -169,3 +169,12 @@ reg('C37', engine='llsym',
     note='Trusted: clang IR, llsym semantics, abstract dict model, dlsym/dlclose stubs; lib_build_and_cache_attr is '
          'represented by its call to the real cdlopen_fetch. The Python wrapper in api.py is not covered.',
     technique='symbolic execution of LLVM IR from an arbitrary closed/open state, SMT (z3)')
+
+reg('C20', engine='llsym',
+    text='Bounded symbolic execution of the real ffi.new path: the size arithmetic (add_varsize_length, ffi.new("T[]", n)) '
+         'accepts exactly the sizes that fit Py_ssize_t and never records a wrapped value; fresh memory is zero; '
+         'ffi.new(T, init) succeeds iff ffi.new(T) + assignment does and leaves the same bytes, for list initializers, a '
+         'struct ending in a flexible array and a nested var-sized struct given as cdata.',
+    note='Trusted: clang IR, llsym semantics, calloc/malloc contracts, CPython contracts. Partial: small initializers, '
+         'two struct shapes; dict initializers, unions and custom allocators not covered.',
+    technique='symbolic execution of LLVM IR, SMT (z3 bit-vectors)')
